@@ -960,6 +960,10 @@ def propagate_fresh_locals(modules, known, rep):
                             uses = [x for x in ast.walk(fn) if isinstance(x, ast.Name) and x.id == name and isinstance(x.ctx, ast.Load)]
                             order = _preorder(fn)
                             p_ok = all(_inside(loop, u) and order[id(u)] > order[id(defn)] for u in uses)
+                if p_ok and _reads_state(v) and not _no_effect_between(fn, defn, name):
+                    # the value reads object state (attributes, items, membership, len): it may only be re-evaluated at a use if nothing
+                    # with an effect can run between the definition and that use
+                    p_ok = False
                 if p_ok and isinstance(v, (ast.List, ast.Set, ast.Dict, ast.ListComp, ast.SetComp, ast.DictComp)):
                     # a mutable object has an identity: only a read-only one (membership tests, iteration, indexing, len) is its display
                     p_ok = _readonly_in(fn, name)
@@ -982,6 +986,68 @@ def propagate_fresh_locals(modules, known, rep):
                     return node
             fn.body = [S().visit(s) for s in fn.body]
             rep.other.append(f"new local `{name}` in {sc + '.' if sc else ''}{fn.name} replaced by its value in {uses} use(s) ({why})")
+
+
+def _reads_state(e) -> bool:
+    for x in ast.walk(e):
+        if isinstance(x, (ast.Attribute, ast.Subscript)) and not (isinstance(x, ast.Attribute) and isinstance(x.value, ast.Name) and x.value.id[:1].isupper()):
+            return True
+        if isinstance(x, ast.Compare) and any(isinstance(o, (ast.In, ast.NotIn)) for o in x.ops) and not all(
+                isinstance(c, (ast.Tuple, ast.List, ast.Set, ast.Constant)) for c in x.comparators):
+            return True
+        if isinstance(x, ast.Call) and not (isinstance(x.func, ast.Name) and x.func.id in ("str", "int", "bool", "isinstance", "frozenset", "tuple", "set", "min", "max", "abs")):
+            return True
+    return False
+
+
+def _no_effect_between(fn, defn, name: str) -> bool:
+    """No statement with an effect (a call that is not a pure builtin, an await, a store to an attribute / item, a delete) can run
+    after the definition and before a use: such a node lies between them in source order and is not confined to the other arm
+    of an `if` that the use is in."""
+    order = _preorder(fn)
+    parents = {}
+    for p in ast.walk(fn):
+        for c in ast.iter_child_nodes(p):
+            parents[id(c)] = p
+
+    def chain(n):
+        out = []
+        while id(n) in parents:
+            p = parents[id(n)]
+            out.append((p, n))
+            n = p
+        return out
+    effects = []
+    for n in ast.walk(fn):
+        if isinstance(n, ast.Await) or isinstance(n, ast.Delete) \
+                or (isinstance(n, ast.Call) and not (isinstance(n.func, ast.Name) and n.func.id in PURE_CALLS)) \
+                or (isinstance(n, (ast.Attribute, ast.Subscript)) and isinstance(n.ctx, (ast.Store, ast.Del))):
+            effects.append(n)
+    dpos = max(order[id(x)] for x in ast.walk(defn) if isinstance(x, (ast.expr, ast.stmt)))
+    uses = [x for x in ast.walk(fn) if isinstance(x, ast.Name) and x.id == name and isinstance(x.ctx, ast.Load)]
+    for u in uses:
+        upos = order[id(u)]
+        uchain = chain(u)
+        for e in effects:
+            epos = order[id(e)]
+            if not (dpos < epos < upos):
+                continue
+            # confined to the other arm of an if the use is in?
+            echain = chain(e)
+            other_arm = False
+            for (pe, ce) in echain:
+                if isinstance(pe, ast.If):
+                    for (pu, cu) in uchain:
+                        if pu is pe:
+                            e_in_body = any(ce is x for x in pe.body)
+                            e_in_else = any(ce is x for x in pe.orelse)
+                            u_in_body = any(cu is x for x in pe.body)
+                            u_in_else = any(cu is x for x in pe.orelse)
+                            if (e_in_body and u_in_else) or (e_in_else and u_in_body):
+                                other_arm = True
+            if not other_arm:
+                return False
+    return True
 
 
 def _readonly_in(fn, name: str) -> bool:
